@@ -278,6 +278,22 @@ func execPots(o *Out, es []entry) {
 	for _, e := range es {
 		ll.AddContributor(e.contrib, e.idx, e.fold)
 	}
+	// another level list — and another settlement — are built in between, as a second hand of the same process would: two lists
+	// share nothing (a pooled buffer or a package-level scratch value would couple them)
+	other := pot.NewLevelList()
+	for i, c := range []int64{10, 20, 30, 20} {
+		other.AddContributor(c, i, i == 3)
+	}
+	otherPots := other.GetPots()
+	or := settlement.NewResult()
+	for _, p := range otherPots {
+		or.AddPot(p.Total, p.Levels)
+	}
+	for i, c := range []int64{10, 20, 30, 20} {
+		or.AddPlayer(i, c)
+		or.UpdateScore(i, []int{3, 3, 1, 0}[i])
+	}
+	or.Calculate()
 	pots := ll.GetPots()
 	r := settlement.NewResult()
 	for _, p := range pots {
